@@ -52,6 +52,16 @@ def _mk(kind, bs):
         return K.RQKernel(batch_shape=bsz)
     if kind == "linear":
         return K.LinearKernel(batch_shape=bsz)
+    if kind == "multitask":
+        return K.MultitaskKernel(K.RBFKernel(batch_shape=bsz), num_tasks=2, rank=1, batch_shape=bsz)
+    if kind == "periodic":
+        return K.PeriodicKernel(ard_num_dims=2, batch_shape=bsz)
+    if kind == "matern15":
+        return K.MaternKernel(nu=1.5, ard_num_dims=2, batch_shape=bsz)
+    if kind == "poly3":
+        return K.PolynomialKernel(3, batch_shape=bsz)
+    if kind == "cosine":
+        return K.CosineKernel(batch_shape=bsz)
     if kind == "rbf+linear":
         return K.RBFKernel(batch_shape=bsz) + K.LinearKernel(batch_shape=bsz)
     if kind == "rbf*linear":
@@ -72,8 +82,9 @@ def kernel(S, kind, pbs, dbs1, dbs2):
     x2 = S.randn(*dbs2, 3, d, scale=0.7); S.sym_tensor(x2, "z")
     out_bs = np.broadcast_shapes(pbs, dbs1, dbs2)
     with S.mode():
-        Kb = dense(k(x1, x2))
-        S.check_concrete(tuple(Kb.shape) == tuple(out_bs) + (2, 3), "batched kernel shape", str(tuple(Kb.shape)))
+        Kb = S.must_not_raise("%s kernel with batch %s on inputs of batch %s / %s" % (kind, pbs, dbs1, dbs2), lambda: dense(k(x1, x2)))
+        outs = 2 if kind == "multitask" else 1
+        S.check_concrete(tuple(Kb.shape) == tuple(out_bs) + (2 * outs, 3 * outs), "batched kernel shape", str(tuple(Kb.shape)))
         for b in np.ndindex(*out_bs):
             rep = _mk(kind, ())
             with torch.no_grad():
@@ -120,6 +131,32 @@ def kernel_index(S, kind, B, diag):
                     for nme, p in rep.named_parameters():
                         p.copy_(src[nme][b])
                 S.prove_eq(dg[b], as_sym_arr(SH.get(rep(x1[b], x1[b], diag=True))), "diag element %d = replica diag" % b)
+
+
+def hamming_batch(S, pbs, dbs):
+    """HammingIMQ kernel (one-hot sequences, concrete) with batched alpha / beta (symbolic): element b = replica"""
+    pbs, dbs = tuple(pbs), tuple(dbs)
+    k = K.HammingIMQKernel(vocab_size=2, batch_shape=torch.Size(pbs))
+    for p in k.parameters():
+        p.requires_grad_(False)
+    declare_params(S, k, "p_", scale=0.4)
+    rnd = np.random.RandomState(S.seed + 3)
+    def oh(*shape):
+        return torch.nn.functional.one_hot(torch.as_tensor(rnd.randint(0, 2, size=shape)), 2).reshape(*shape[:-1], -1).double()
+    x1, x2 = oh(*dbs, 3, 2), oh(*dbs, 4, 2)
+    out_bs = np.broadcast_shapes(pbs, dbs)
+    with S.mode():
+        Kb = S.must_not_raise("HammingIMQ kernel with batch %s on inputs of batch %s" % (pbs, dbs), lambda: dense(k(x1, x2)))
+        dgb = k(x1, x1, diag=True)
+        S.check_concrete(tuple(Kb.shape) == tuple(out_bs) + (3, 4), "batched Hamming kernel shape", str(tuple(Kb.shape)))
+        for b in np.ndindex(*out_bs):
+            rep = K.HammingIMQKernel(vocab_size=2)
+            with torch.no_grad():
+                rep.raw_alpha.copy_(k.raw_alpha[_bidx(b, pbs, len(out_bs))])
+                rep.raw_beta.copy_(k.raw_beta[_bidx(b, pbs, len(out_bs))])
+            xb1, xb2 = x1[_bidx(b, dbs, len(out_bs))], x2[_bidx(b, dbs, len(out_bs))]
+            S.prove_eq(Kb[b], as_sym_arr(SH.get(dense(rep(xb1, xb2)))), "Hamming kernel element %s = replica" % (list(b),))
+            S.prove_eq(dgb[b], as_sym_arr(SH.get(rep(xb1, xb1, diag=True))), "Hamming diag element %s = replica" % (list(b),))
 
 
 def mean_noise(S, pbs, dbs):
@@ -318,6 +355,11 @@ def scenarios(tier, seed):
         sel = [((), ()), ((2,), ()), ((), (2,)), ((2,), (2,)), ((2, 1), (1, 2)), ((2,), (2, 2)), ((1,), (2,)), ((2, 2), ())]
         for i, (p, d) in enumerate(sel):
             add("kernel", kind=["rbf", "scale_rbf", "rq", "linear"][i % 4], pbs=list(p), dbs1=list(d), dbs2=list(d if i % 2 else (d[-1:] if d else ())))
+        for kind in ("multitask", "periodic"):
+            add("kernel", kind=kind, pbs=[2], dbs1=[2], dbs2=[2])
+        add("kernel", kind="multitask", pbs=[2], dbs1=[], dbs2=[])
+        add("hamming_batch", pbs=[2], dbs=[2])
+        add("hamming_batch", pbs=[3], dbs=[])
         for (p, d) in [((2,), ()), ((), (2,)), ((2, 1), (1, 2)), ((2,), (2,))]:
             add("mean_noise", pbs=list(p), dbs=list(d))
         add("exact_gp", n=2, m=1, shared_x=True)
@@ -337,6 +379,11 @@ def scenarios(tier, seed):
         for kind in ("rbf", "rq", "linear", "rbf+linear", "rbf*linear", "scale(rbf+rq)", "scale_rbf"):
             for B in (2, 3):
                 add("kernel_index", kind=kind, B=B, diag=True)
+        for kind in ("multitask", "periodic", "matern15", "poly3", "cosine"):
+            for (p, d) in [((2,), (2,)), ((2,), ()), ((), (2,)), ((2,), (3, 2)), ((2, 1), (1, 2))]:
+                add("kernel", kind=kind, pbs=list(p), dbs1=list(d), dbs2=list(d))
+        for (p, d) in [((2,), (2,)), ((3,), ()), ((), (2,)), ((2,), (3, 2))]:
+            add("hamming_batch", pbs=list(p), dbs=list(d))
         for kind in ("rbf+linear", "rbf*linear", "scale(rbf+rq)"):
             for (p, d) in pairs[:8]:
                 add("kernel", kind=kind, pbs=list(p), dbs1=list(d), dbs2=list(d))
